@@ -89,6 +89,24 @@ def make_table(rng):
         if ps:
             p = rng.choice(ps)
             p["x"] = round(p["x"] + rng.choice([0.5, 0.9, 1.5, -0.7]), 3)
+    # ... or so that it sits EXACTLY on the limit: the phosphorus goes to O3' + (2.4, 0, 0) with O3' on
+    # coordinates whose sum with 2.4 is exact in binary (x.0 / x.5): whatever the readers decide there, they
+    # must decide the same
+    elif rng.random() < 0.35:
+        ks = []
+        for r in rows:
+            k = (r["chain"], r["resseq"], r["icode"])
+            if k not in ks:
+                ks.append(k)
+        if len(ks) >= 2:
+            i = rng.randrange(len(ks) - 1)
+            o3 = next((r for r in rows if (r["chain"], r["resseq"], r["icode"]) == ks[i] and r["name"] == "O3'"), None)
+            p = next((r for r in rows if (r["chain"], r["resseq"], r["icode"]) == ks[i + 1] and r["name"] == "P"), None)
+            if o3 is not None and p is not None:
+                for c in "xyz":
+                    o3[c] = float(round(o3[c] * 2) / 2)
+                p["x"], p["y"], p["z"] = o3["x"] + 2.4, o3["y"], o3["z"]
+                p["x"] = round(p["x"], 3)
     # renumber with hostile numbers / insertion codes
     mode = rng.random()
     if mode < 0.3:
@@ -262,6 +280,9 @@ def run_case(case, rec):
             want, margin = d < 2.4, abs(d - 2.4)
         if margin < 1e-6:
             undecided = True
+            # on the limit the reference is silent, but the readers must still agree with each other
+            at = {n: bool(objs[n][a].is_connected(objs[n][b])) for n in objs}
+            rec.check("connectivity.readers-agree-on-the-limit", len(set(at.values())) == 1, lambda: det({"pair": (a, b), "O3'-P": d, "readers": at}))
             continue
         got = {n: bool(objs[n][a].is_connected(objs[n][b])) for n in objs}
         if any(v != want for v in got.values()):
